@@ -23,11 +23,11 @@ try:
         checks = list(meta.get('detected_by') or {meta['property']: None})
         if meta['property'] not in checks:
             checks.insert(0, meta['property'])
-        sh(f'git -C {REPO} checkout -q -- . && git -C {REPO} clean -qfd')
-        if sh(f'git -C {REPO} apply {d}/patch.diff', capture_output=True).returncode != 0 and \
-                sh(f'git -C {REPO} apply -3 {d}/patch.diff', capture_output=True).returncode != 0:
+        sh(f'git -C {REPO} reset -q --hard && git -C {REPO} clean -qfd')
+        if sh(f'git -C {REPO} apply --check {d}/patch.diff', capture_output=True).returncode != 0 or \
+                sh(f'git -C {REPO} apply {d}/patch.diff', capture_output=True).returncode != 0:
             # written against an earlier HEAD; a later fix: commit rewrote the same lines.  The recorded detection stays.
-            sh(f'git -C {REPO} checkout -q -- . && git -C {REPO} reset -q --hard')
+            sh(f'git -C {REPO} reset -q --hard')
             meta['patch_applies_to_current_head'] = False
             json.dump(meta, open(os.path.join(d, 'meta.json'), 'w'), indent=1)
             print(sid, 'patch no longer applies to HEAD (kept as recorded)', flush=True)
